@@ -236,7 +236,8 @@ static bool has_reference(const Kw& k) { return !(k.cls == K_FLOW && k.hist && k
 static std::string summary_entry(const Kw& k, int ng) {
     if (k.ent == 'W') return k.name + "\n/\n";
     if (k.ent == 'G') { std::string s = k.name + "\n"; for (int g = 0; g < ng; ++g) s += std::string(" ") + GN[g]; return s + " FIELD /\n"; }
-    if (k.name == "TIME" || k.name == "YEARS") return "";          // always produced
+    if (k.name == "TIME" || k.name == "YEARS" || k.name == "MONTH" || k.name == "YEAR") return "";   // always produced / requested through DATE
+    if (k.name == "DAY") return "DATE\n";                         // meta keyword: DAY MONTH YEAR
     return k.name + "\n";
 }
 
@@ -265,9 +266,9 @@ static long long days_from_civil(int y, int m, int d) {
 struct Flow { double P[3] = {0, 0, 0}, I[3] = {0, 0, 0}, VP = 0, VI = 0, HP[3] = {0, 0, 0}, HI[3] = {0, 0, 0}; };   // deck units
 struct Ref {
     const Case& c; RefUnits u; int nn;
-    std::vector<std::map<std::string, double>> totals;     // per node: accumulated totals by keyword suffix
+    std::vector<std::vector<double>> totals;                // [kw][node]: accumulated totals
     double elapsed_s = 0;
-    explicit Ref(const Case& cc) : c(cc), u(ref_units(cc.us)), nn(3 + cc.ng + 1), totals(nn) {}
+    explicit Ref(const Case& cc) : c(cc), u(ref_units(cc.us)), nn(3 + cc.ng + 1), totals(g_kws.size(), std::vector<double>(nn, 0.0)) {}
 
     bool under(int w, int node) const {      // is well w a descendant of node?
         if (node < 3) return node == w;
@@ -334,7 +335,7 @@ struct Ref {
             for (int n = 0; n < nn; ++n) {
                 if (kw.cls == K_RATIO) expect[i][n] = ratio(fr[n], kw);
                 else if (!kw.total) expect[i][n] = base(fr[n], kw);
-                else { double& t = totals[n][kw.name.substr(1)]; t += base(ft[n], kw) * dt; expect[i][n] = t; }
+                else { double& t = totals[i][n]; t += base(ft[n], kw) * dt; expect[i][n] = t; }
             }
         }
         elapsed_s += dt_s;
@@ -470,22 +471,21 @@ static bool setup_catalogue() {
     auto cand = candidates();
     std::string not_deck, not_cfg, not_eval, no_ref, checked;
     std::vector<Kw> rec;
+    std::vector<Kw> recog;
     for (auto& k : cand) {
-        if (k.name == "TIME" || k.name == "YEARS") { rec.push_back(k); continue; }
-        if (!g_parser->isRecognizedKeyword(k.name)) { not_deck += k.name + " "; continue; }
-        // must be legal in SUMMARY and produce nodes
-        Case c; g_summary_section = summary_entry(k, c.ng);
+        bool date = k.name == "DAY" || k.name == "MONTH" || k.name == "YEAR";
+        if (k.name == "TIME" || k.name == "YEARS" || g_parser->isRecognizedKeyword(date ? "DATE" : k.name)) recog.push_back(k); else not_deck += k.name + " ";
+    }
+    {
+        Case c; std::string sec; for (auto& k : recog) sec += summary_entry(k, c.ng);
         try {
-            auto deck = g_parser->parseString(render(c, g_summary_section));
+            auto deck = g_parser->parseString(render(c, sec));
             Schedule sched(deck, es_for(0, 0), g_python);
             SummaryConfig cfg(deck, sched, es_for(0, 0).fieldProps(), es_for(0, 0).aquifer());
-            if (!cfg.hasKeyword(k.name)) { not_cfg += k.name + " "; continue; }
-        } catch (const std::exception&) { not_cfg += k.name + " "; continue; }
-        rec.push_back(k);
+            for (auto& k : recog) { if (k.name == "TIME" || k.name == "YEARS" || cfg.hasKeyword(k.name)) rec.push_back(k); else not_cfg += k.name + " "; }
+        } catch (const std::exception& e) { R->violation("C09:harness:catalogue-deck", std::string("deck with all candidate vectors does not build: ") + e.what()); return false; }
     }
     // which of them get a value from the evaluator (default model, one step)
-    g_summary_section.clear();
-    for (auto& k : rec) g_summary_section += summary_entry(k, 4);   // group lists name G1..G4: rebuilt per ng below
     g_kws.clear();
     {
         // ng-specific summary section is produced in summary_for(); probe with ng = 3
